@@ -19,8 +19,8 @@ type synGen struct {
 
 var synAccts = []string{"a", "b", "world", "users:001", "a-b_c", "Bank:fees:2024", "x"}
 var synAssets = []string{"USD", "EUR/2", "COIN", "BTC/8", "X"}
-var synStrs = []string{"k", "hello world", "é", `q\"uote`, "", "a/b:c", "ключ"}
-var synPortions = []string{"1/2", "1 / 3", "2/ 3", "1 /4", "50%", "12.5%", "100%", "0%", "3/4", "99.99%", "1/1", "10/20"}
+var synStrs = []string{"k", "hello world", "é", `q\"uote`, "", "a/b:c", "ключ", `say \"hi\"`, `\"`, `tab\there`}
+var synPortions = []string{"1/2", "1 / 3", "2/ 3", "1 /4", "50%", "12.5%", "100%", "0%", "3/4", "99.99%", "1/1", "10/20", "08/10", "007/010", "09%", "0.090%", "1/09"}
 var synTypes = []string{"account", "asset", "number", "monetary", "portion", "string"}
 var synVarNames = []string{"a", "my_var", "x2", "amount_1", "p", "s", "acc", "m"}
 
